@@ -15,7 +15,7 @@ WELL_FORMED_T3 = ['t3_attr_valid(self._tag.mem)', 'len(self._tag.mem) == 16 * se
                   't3_nmaxb(self._tag.mem) + 1 <= self._tag.nblocks',                # the tag has the declared blocks
                   'self._tag.mem[10] != 0',                                          # RWFlag: writeable
                   'self._tag.mem[5:9] == bytes(4)']                                  # RFU octets are zero
-W = 'min(_k * attributes["nbw"], last_block_number - 1)'
+W = 'min(_k * nbw, last_block_number - 1)'
 for prop, oblig in (('C01', 'O-write'), ('C02', 'O-cut'), ('C03', 'O-frame')):
     ens = {'C01': [('O-write.view', 'view_is(t3_view(self._tag.mem), old(bytes(data)))'),
                    ('O-write.ok', 'result == True')],
@@ -43,7 +43,7 @@ for prop, oblig in (('C01', 'O-write'), ('C02', 'O-cut'), ('C03', 'O-frame')):
 
 # a fresh reader returns exactly the message the independent reading finds in the tag memory
 T3R = 'nfc.tag.tt3.Type3Tag.NDEF._read_ndef_data'
-WR = 'min(_k * attributes["nbr"], last_block_number - 1)'
+WR = 'min(_k * nbr, last_block_number - 1)'
 contract(T3 + 'Type3Tag.NDEF._read_ndef_data', 'C01',
          dict(self=Obj(T3 + 'Type3Tag.NDEF', _partial=False, _data=None, _capacity=0, _readable=False,
                        _writeable=False, _tag=Obj('models.tag_models:T3NdefTag', _partial=False, sys=0x12FC,
@@ -168,31 +168,32 @@ contract(T4 + 'Type4Tag.NDEF._wipe_ndef_data', 'C03',
 
 # discovery: on a card with a well-formed CC the NDEF object takes the file's real limits (the object
 # invariant T4_INV the read/write contracts start from) and never reports more capacity than the file holds
-contract(T4 + 'Type4Tag.NDEF._discover_ndef', 'C01',
-         dict(self=Obj(T4 + 'Type4Tag.NDEF', _partial=False, _data=None, _capacity=0, _readable=False,
-                       _writeable=False,
-                       _tag=Obj(T4 + 'Type4Tag', _partial=False, _extended_length_support=False,
-                                _dep=Obj('models.tag_models:T4FileCard', _partial=False, file=Bytes(0, None),
-                                         file0=Ref('self._tag._dep.file'), cc=Bytes(15, 17),
-                                         selected=Int(0, 2), nlen_size=Int(2, 4), mlc=Int(1, 65535),
-                                         mle=Int(15, 65535), goal=None, writes=0, reads=0, check_cut=False)))),
-         name='C01/tt4._discover_ndef',
-         requires=['t4_cc_valid(self._tag._dep.cc)', 'self._tag._dep.mle == t4_cc_mle(self._tag._dep.cc)',
-                   'self._tag._dep.mlc == t4_cc_mlc(self._tag._dep.cc)',
-                   'len(%s) == t4_cc_mfs(self._tag._dep.cc)' % F,
-                   'self._tag._dep.nlen_size == self._tag._dep.cc[7] - 2',
-                   'len(%s) >= self._tag._dep.nlen_size' % F],
-         ensures=[('O-discover.ok', 'result == True'),
-                  ('O-discover.nlen', 'self._nlen_size == self._tag._dep.nlen_size'),
-                  ('O-discover.capacity', 'self._capacity >= 0 and self._nlen_size + self._capacity <= len(%s) '
-                                          'and self._nlen_size + self._capacity <= 65536' % F),
-                  ('O-discover.capacity-full', 'implies(len(%s) <= 65536, '
-                                               'self._nlen_size + self._capacity == len(%s))' % (F, F)),
-                  ('O-discover.limits', '1 <= self._max_lc and self._max_lc <= min(self._tag._dep.mlc, 255) and '
-                                        '15 <= self._max_le and self._max_le <= min(self._tag._dep.mle, 256)'),
-                  ('O-discover.file', 'self._ndef_file == self._tag._dep.cc[9:11]'),
-                  ('O-discover.no-write', 'self._tag._dep.writes == 0')],
-         raises={})
+for _prop in ('C01', 'C02', 'C03'):      # C02/C03: the object invariant their write contracts start from
+    contract(T4 + 'Type4Tag.NDEF._discover_ndef', _prop,
+             dict(self=Obj(T4 + 'Type4Tag.NDEF', _partial=False, _data=None, _capacity=0, _readable=False,
+                           _writeable=False,
+                           _tag=Obj(T4 + 'Type4Tag', _partial=False, _extended_length_support=False,
+                                    _dep=Obj('models.tag_models:T4FileCard', _partial=False, file=Bytes(0, None),
+                                             file0=Ref('self._tag._dep.file'), cc=Bytes(15, 17),
+                                             selected=Int(0, 2), nlen_size=Int(2, 4), mlc=Int(1, 65535),
+                                             mle=Int(15, 65535), goal=None, writes=0, reads=0, check_cut=False)))),
+             name='%s/tt4._discover_ndef' % _prop,
+             requires=['t4_cc_valid(self._tag._dep.cc)', 'self._tag._dep.mle == t4_cc_mle(self._tag._dep.cc)',
+                       'self._tag._dep.mlc == t4_cc_mlc(self._tag._dep.cc)',
+                       'len(%s) == t4_cc_mfs(self._tag._dep.cc)' % F,
+                       'self._tag._dep.nlen_size == self._tag._dep.cc[7] - 2',
+                       'len(%s) >= self._tag._dep.nlen_size' % F],
+             ensures=[('O-discover.ok', 'result == True'),
+                      ('O-discover.nlen', 'self._nlen_size == self._tag._dep.nlen_size'),
+                      ('O-discover.capacity', 'self._capacity >= 0 and self._nlen_size + self._capacity <= len(%s) '
+                                              'and self._nlen_size + self._capacity <= 65536' % F),
+                      ('O-discover.capacity-full', 'implies(len(%s) <= 65536, '
+                                                   'self._nlen_size + self._capacity == len(%s))' % (F, F)),
+                      ('O-discover.limits', '1 <= self._max_lc and self._max_lc <= min(self._tag._dep.mlc, 255) and '
+                                            '15 <= self._max_le and self._max_le <= min(self._tag._dep.mle, 256)'),
+                      ('O-discover.file', 'self._ndef_file == self._tag._dep.cc[9:11]'),
+                      ('O-discover.no-write', 'self._tag._dep.writes == 0')],
+             raises={})
 
 # ---------------------------------------------------------------- Type 2 (write path, layouts whose reserved
 # range does not touch the NDEF TLV: lock/reserved octets before the TLV or behind the data area)
@@ -309,3 +310,19 @@ contract(T2 + 'Type2TagMemoryReader.__setitem__', 'C01',
                                      % (IMGX, IMGX, IMGX)),
                   ('O-refine.no-write', 'self._tag.writes == 0 and self._tag.mem == old(self._tag.mem)')],
          raises={}, loops=RLOOP)
+
+# ---------------------------------------------------------------- control TLV helpers of Type 1 and Type 2
+# the address range a lock / memory control TLV reserves, against the independent reading of the TLV value, for
+# every value (these ranges become the skip set of reader and writer: C01 capacity, C03 frame, C08 data area)
+for _m in ('tt1', 'tt2'):
+    for _prop in ('C01', 'C03', 'C08'):
+        contract('nfc.tag.%s:get_lock_byte_range' % _m, _prop, dict(data=Bytes(3, 3, mutable=True)),
+                 name='%s/%s.get_lock_byte_range' % (_prop, _m),
+                 ensures=[('O-ctl.range', 'result.start == ctl_tlv_start(data) and '
+                                          'result.stop == ctl_tlv_start(data) + lock_tlv_size(data)')],
+                 raises={})
+        contract('nfc.tag.%s:get_rsvd_byte_range' % _m, _prop, dict(data=Bytes(3, 3, mutable=True)),
+                 name='%s/%s.get_rsvd_byte_range' % (_prop, _m),
+                 ensures=[('O-ctl.range', 'result.start == ctl_tlv_start(data) and '
+                                          'result.stop == ctl_tlv_start(data) + rsvd_tlv_size(data)')],
+                 raises={})
